@@ -38,7 +38,7 @@ TABLE = {
         rule="a reused object runs next to a fresh shadow object after a close",
         nontrivial=lambda n: n.get("shadow") == "fresh", profile="reuse"),
     "C11": dict(
-        quick=["gate", "in_qos2_disc"], thorough=["gate", "in_qos2_disc", "qos_offline"],
+        quick=["gate", "gate_x", "in_qos2_disc"], thorough=["gate", "gate_x", "in_qos2_disc", "qos_offline"],
         rule="send is called (one cell of role x version x state x kind)",
         nontrivial=lambda n: _op(n) == "send", profile="gate"),
     "C12": dict(
